@@ -190,6 +190,13 @@ def oracle(case, obs):
         if max(abs(fc[0] - uvV[v][0]), abs(fc[1] - uvV[v][1])) > 1e-12 * scale or fc[2] != 0.0:
             out.append(("outputs", "flat_mesh (corner storage) vertex %d is %s, uv is %s" % (v, fc, uvV[v])))
             break
+    # ---- the embedding (incl. reading flat_mesh) leaves the input mesh's vertices where they were
+    va = obs.get("verts_after")
+    if va is not None:
+        for v in range(nv):
+            if [float(x) for x in case["verts"][v]] != [float(x) for x in va[v]]:
+                out.append(("input-mutated", "input mesh vertex %d moved from %s to %s during the embedding / flat_mesh" % (v, case["verts"][v], va[v])))
+                break
     # ---- border placement, on my own border walk
     cyc = G.border_cycle(faces)[0]
     P = [uvV[v] for v in cyc]
